@@ -87,19 +87,19 @@ def bytes_lp(bs):
 
 
 def sync_ops(rng, adv, degenerate=False):
-    small = (lambda: 0) if degenerate else (lambda: rng.choice([0, 1, 1, 2]))
+    small = (lambda: 0) if degenerate else (lambda: rng.choice([0, 0, 1, 1, 2]))
     ops = []
     n = rng.randrange(1, 14)
     while len(ops) < n:
         r = rng.random()
         if adv:
-            k = rng.choice([1, 2, 3, 4, 5, 6, 7])
+            k = rng.choice([1, 2, 3, 4, 5, 6, 7, 1, 2, 4, 6, 7, 6, 7])
             if k == 1:
                 ops.append([1, rng.choice([0, 1, 3, 9, 50])])
             elif k == 2:
                 ops.append([2])
             elif k == 3:
-                ops.append([3, rng.choice([0, 0, 1, 2, 30])])
+                ops.append([3, rng.choice([0, 0, 0, 0, 1, 2, 30])])
             elif k == 4:
                 ops.append([4] + bytes_lp(payload(rng, rng.choice([0, 1, 2, 5, 9, 30]))))
             else:
@@ -128,18 +128,18 @@ def sync_ops(rng, adv, degenerate=False):
 
 
 def poll_ops(rng, adv, degenerate=False):
-    small = (lambda: 0) if degenerate else (lambda: rng.choice([0, 1, 1, 2]))
+    small = (lambda: 0) if degenerate else (lambda: rng.choice([0, 0, 1, 1, 2]))
     ops = []
     n = rng.randrange(1, 16)
     w = lambda: rng.randrange(0, 4)
     while len(ops) < n:
         r = rng.random()
         if adv:
-            k = rng.choice([1, 2, 3, 4, 4, 5, 6, 8, 9, 10])
+            k = rng.choice([1, 2, 3, 4, 4, 5, 6, 8, 9, 10, 1, 2, 4, 5, 6, 8, 9, 10])
             if k in (1, 8):
                 ops.append([k, w(), rng.choice([0, 1, 3, 9, 50])])
             elif k == 3:
-                ops.append([3, rng.choice([0, 0, 1, 2, 30])])
+                ops.append([3, rng.choice([0, 0, 0, 0, 1, 2, 30])])
             elif k == 4:
                 ops.append([4, w()] + bytes_lp(payload(rng, rng.choice([0, 1, 2, 5, 9, 30]))))
             elif k in (2, 5, 6):
